@@ -33,6 +33,12 @@ namespace occa {
 
       // We only expect 1 argument
       tokenVector &args = allArgs[0];
+      if (!args.size()) {
+        // defined()
+        errorOn(&source,
+                "Expected one macro name");
+        return;
+      }
       if (args.size() > 1) {
         args[1]->origin
           .from(false, thisToken.origin)
@@ -84,6 +90,12 @@ namespace occa {
 
       // Extract the header
       const int tokenCount = (int) args.size();
+      if (!tokenCount) {
+        // __has_include()
+        errorOn(&source,
+                "Expected a string with the header path");
+        return;
+      }
       for (int i = 0; i < tokenCount; ++i) {
         if (!(args[i]->type() & tokenType::string)) {
           args[i]->printError("Expected a string with the header path");
